@@ -632,6 +632,8 @@ row('CODE.INSERT', ['C08'], takes=[('int', 1)], touches=['code'], clauses=[
     ('fired.code.shape', 'S1.code.len() == S0.code.len() && (S0.code.len() >= 1 ==> drop_n(S1.code, 1) =~= drop_n(S0.code, 1))'),
     # "inserting the second item into the first at the indexed point": a following EXTRACT at the same index yields the inserted item
     ('fired.extract-after-insert', '(S0.int.len() >= 1 && S0.code.len() >= 2 && 0 <= %s < %s(%s)) ==> %s(top(S1.code, 0), %s as nat) == Some(top(S0.code, 1))' % (_i, PTS, _c, NTH, _i)),
+    # "... and changes nothing outside the replaced subtree": structurally, only the addressed point differs
+    ('fired.only-the-addressed-point-replaced', '(S0.int.len() >= 1 && S0.code.len() >= 2 && 1 <= %s < %s(%s)) ==> crate::push::item::ins_ok(%s, top(S1.code, 0), %s as nat, top(S0.code, 1))' % (_i, PTS, _c, _c, _i)),
     # the property quantifies over ALL indices ("the indexing is computed as in CODE.EXTRACT", i.e. modulo the number of points): for an index outside
     # 0..points the following EXTRACT normalises it, but INSERT does nothing -- pinned by the repository's test code_insert_does_nothing_when_index_too_big
     ('fired.extract-after-insert.out-of-range-index', '(S0.int.len() >= 1 && S0.code.len() >= 2 && !(0 <= %s < %s(%s))) ==> %s(top(S1.code, 0), ((%s as int) %% (%s(top(S1.code, 0)) as int)) as nat) == Some(top(S0.code, 1))' % (_i, PTS, _c, NTH, _i, PTS)),
